@@ -35,6 +35,9 @@ pub struct VersionModel {
     pub defs: Vec<Def>,
     pub has_needs: bool,
     pub has_defs: bool,
+    /// the needs are a run of empty needs followed by one need with entries, laid out as *overlapping* Verneed records
+    /// (stride 8: vn_next of one record is vn_file of the next): more records than sh_size / 16
+    pub overlap_needs: bool,
 }
 
 #[derive(Clone, Debug, Default)]
@@ -73,7 +76,17 @@ pub fn gen_model(rng: &mut Rng, max_needs: usize, max_aux: usize, max_defs: usiz
     }
     m.has_needs = rng.chance(5, 6);
     m.has_defs = rng.chance(5, 6);
-    if m.has_needs {
+    if m.has_needs && rng.chance(1, 10) {
+        // overlap-friendly shape (see `overlap_needs`): E empty needs, then one need with c entries, E + 1 > 2c + 1
+        let c = 1 + rng.usize_below(2);
+        let e = 2 * c + 1 + rng.usize_below(4);
+        for i in 0..e {
+            m.needs.push(Need { file: if i == 0 { "pad123".to_string() } else { "ovl.so".to_string() }, auxes: Vec::new() });
+        }
+        let auxes = (0..c).map(|j| Aux { name: gen_name(rng, &format!("VO_{j}")), hash: rng.boundary(32) as u32, flags: rng.boundary(16) as u16, other: pool.pop().unwrap_or(2) }).collect();
+        m.needs.push(Need { file: "ovl.so".to_string(), auxes });
+        m.overlap_needs = true;
+    } else if m.has_needs {
         let n = if rng.chance(1, 5) { 0 } else { rng.usize_below(max_needs + 1) };
         for i in 0..n {
             let k = rng.usize_below(max_aux + 1);
@@ -213,6 +226,10 @@ pub fn emit_opt(enc: Enc, m: &VersionModel, rng: &mut Rng, scattered: bool, spli
     for v in &m.versym {
         enc.put(&mut vb.versym, *v as u64, 2);
     }
+    if m.overlap_needs {
+        // offsets 1 and 8 of the string table hold the two file names the overlapping records can name
+        vb.strtab.extend_from_slice(b"pad123\0ovl.so\0");
+    }
     // verneed
     let mut tops = Vec::new();
     let mut auxes = Vec::new();
@@ -226,7 +243,30 @@ pub fn emit_opt(enc: Enc, m: &VersionModel, rng: &mut Rng, scattered: bool, spli
         }
         auxes.push(l);
     }
-    vb.verneed = layout_section(enc, rng, scattered, tops, auxes, "vn_next", "vn_aux", "vna_next");
+    if m.overlap_needs {
+        // records at stride 8, each later one overwriting the aux/next words of its predecessor: the predecessor's
+        // vn_next then reads as the successor's vn_file (= 8), its vn_aux as (version, count) of the successor, which
+        // nobody follows because the predecessor's own count is 0
+        let e = m.needs.len() - 1;
+        let last = m.needs.last().unwrap();
+        let mut buf = vec![0u8; 8 * e + 16 + 16 * last.auxes.len()];
+        for i in 0..e {
+            let r = Rec::zero(St::Verneed, enc.c64).with("vn_version", 1).with("vn_cnt", 0).with("vn_file", if i == 0 { 1 } else { 8 }).with("vn_aux", 0).with("vn_next", 8);
+            buf[8 * i..8 * i + 16].copy_from_slice(&r.bytes(enc));
+        }
+        let r = Rec::zero(St::Verneed, enc.c64).with("vn_version", 1).with("vn_cnt", last.auxes.len() as u64).with("vn_file", 8).with("vn_aux", 16).with("vn_next", 0);
+        buf[8 * e..8 * e + 16].copy_from_slice(&r.bytes(enc));
+        let l = auxes.last().unwrap();
+        for (j, a) in l.iter().enumerate() {
+            let mut a = a.clone();
+            a.set("vna_next", if j + 1 == l.len() { 0 } else { 16 });
+            let at = 8 * e + 16 + 16 * j;
+            buf[at..at + 16].copy_from_slice(&a.bytes(enc));
+        }
+        vb.verneed = buf;
+    } else {
+        vb.verneed = layout_section(enc, rng, scattered, tops, auxes, "vn_next", "vn_aux", "vna_next");
+    }
     // verdef
     let mut tops = Vec::new();
     let mut auxes = Vec::new();
